@@ -1,8 +1,8 @@
 package main
 
 import (
-	"go/token"
 	"go/constant"
+	"go/token"
 	"sort"
 	"strings"
 
